@@ -14,3 +14,64 @@ package prometheus
 
 //@ func convertsToUnderscore(b rune) (r bool)
 //@   ensures r == !(('a' <= b && b <= 'z') || ('A' <= b && b <= 'Z') || b == ':' || ('0' <= b && b <= '9'))
+
+// getAttrs: the label names and label values handed to the Prometheus client always have the same length (a mismatch makes
+// NewConstMetric fail for the whole series), in both the UTF-8 and the sanitising (merge duplicates) branch
+//@ func getAttrs(attrs attribute.Set) (keys []string, values []string)
+//@   overflow assumed
+//@   unchecked frame,no-panic fresh slices and a fresh map are written; attribute values are rendered by attribute.Value.Emit (reflection)
+//@   ensures len(keys) == len(values)
+//@   loop#1 invariant len(keys) == len(values) && itr.storage != nil && itr.idx >= -1 && itr.idx <= setLen(itr.storage.equivalent)
+//@   loop#2 invariant len(keys) == len(values) && keysMap != nil && itr.storage != nil && itr.idx >= -1 && itr.idx <= setLen(itr.storage.equivalent)
+//@   loop#3 invariant len(keys) == len(values)
+
+// metric type table: histograms (explicit and exponential) -> HISTOGRAM, monotonic sums -> COUNTER, other sums and gauges -> GAUGE
+//@ func (c *collector) metricType(m metricdata.Metrics) (r *dto.MetricType)
+//@   unchecked frame the enum value is boxed by a third-party helper
+//@   ensures typeis(m.Data, "metricdata.Sum[int64]") || typeis(m.Data, "metricdata.Sum[float64]") || typeis(m.Data, "metricdata.Gauge[int64]") || typeis(m.Data, "metricdata.Gauge[float64]") || typeis(m.Data, "metricdata.Histogram[int64]") || typeis(m.Data, "metricdata.Histogram[float64]") || typeis(m.Data, "metricdata.ExponentialHistogram[int64]") || typeis(m.Data, "metricdata.ExponentialHistogram[float64]") || r == nil
+//@   assert@call MetricType.Enum#1 : $arg0 == 4 && (typeis(m.Data, "metricdata.ExponentialHistogram[int64]") || typeis(m.Data, "metricdata.ExponentialHistogram[float64]"))
+//@   assert@call MetricType.Enum#2 : $arg0 == 4 && (typeis(m.Data, "metricdata.Histogram[int64]") || typeis(m.Data, "metricdata.Histogram[float64]"))
+//@   assert@call MetricType.Enum#3 : $arg0 == 0 && typeis(m.Data, "metricdata.Sum[float64]") && cast(m.Data, "metricdata.Sum[float64]").IsMonotonic
+//@   assert@call MetricType.Enum#4 : $arg0 == 1 && typeis(m.Data, "metricdata.Sum[float64]") && !cast(m.Data, "metricdata.Sum[float64]").IsMonotonic
+//@   assert@call MetricType.Enum#5 : $arg0 == 0 && typeis(m.Data, "metricdata.Sum[int64]") && cast(m.Data, "metricdata.Sum[int64]").IsMonotonic
+//@   assert@call MetricType.Enum#6 : $arg0 == 1 && typeis(m.Data, "metricdata.Sum[int64]") && !cast(m.Data, "metricdata.Sum[int64]").IsMonotonic
+//@   assert@call MetricType.Enum#7 : $arg0 == 1 && (typeis(m.Data, "metricdata.Gauge[int64]") || typeis(m.Data, "metricdata.Gauge[float64]"))
+
+// validateMetrics: the family table is only touched under the collector's lock; the first definition of a name is recorded
+// and never replaced by a later, conflicting one (first definition wins)
+//@ guarded_by collector.mu: metricFamilies
+//@ func (c *collector) validateMetrics(name string, description string, metricType *dto.MetricType) (drop bool, help string)
+//@   acquires c.mu
+//@   unchecked frame,no-panic protobuf getters and logging are outside the contracts
+//@   requires c != nil && metricType != nil && c.metricFamilies != nil
+//@   ensures !old(has(c.metricFamilies, name)) ==> !drop && help == "" && has(c.metricFamilies, name)
+//@   ensures old(has(c.metricFamilies, name)) ==> c.metricFamilies[name] == old(c.metricFamilies[name])
+//@   ensures forall k string : k != name ==> has(c.metricFamilies, k) == old(has(c.metricFamilies, k)) && (has(c.metricFamilies, k) ==> c.metricFamilies[k] == old(c.metricFamilies[k]))
+
+// explicit-bucket histograms: the series' count and sum are the data point's count and sum (NOT the running bucket total, which
+// leaves out the overflow bucket), labels and label values stay paired, bucket k holds the running total of counts 0..k;
+// needs len(BucketCounts) > len(Bounds) (what the SDK produces: C07) for the index to be in range
+//@ func addHistogramMetric(ch chan<- prometheus.Metric, histogram metricdata.Histogram[$N], m metricdata.Metrics, name string, kv keyVals)
+//@   instances int64; float64
+//@   overflow assumed
+//@   unchecked frame a fresh map and fresh slices are written; Prometheus client calls
+//@   requires len(kv.keys) == len(kv.vals) && (forall j in 0 .. len(histogram.DataPoints) : len(histogram.DataPoints[j].BucketCounts) > len(histogram.DataPoints[j].Bounds))
+//@   assert@call NewConstHistogram#* : $arg1 == dp.Count && $arg2 === float64(dp.Sum) && len($arg4) == len(keys) && $arg3 == buckets
+//@   assert@call NewDesc#* : len(keys) == len(values) && $arg0 == name && $arg1 == m.Description
+//@   loop#2 invariant buckets != nil && 0 <= $k && cumulativeCount >= 0
+
+// sums and gauges: monotonic sums are counters, everything else a gauge; the exposed value is the data point's value
+//@ func addSumMetric(ch chan<- prometheus.Metric, sum metricdata.Sum[$N], m metricdata.Metrics, name string, kv keyVals)
+//@   instances int64; float64
+//@   overflow assumed
+//@   unchecked frame fresh slices are written; Prometheus client calls
+//@   requires len(kv.keys) == len(kv.vals)
+//@   assert@call NewConstMetric#* : $arg1 == ite(sum.IsMonotonic, prometheus.CounterValue, prometheus.GaugeValue) && $arg2 === float64(dp.Value) && len($arg3) == len(keys)
+//@   assert@call NewDesc#* : len(keys) == len(values) && $arg0 == name && $arg1 == m.Description
+//@ func addGaugeMetric(ch chan<- prometheus.Metric, gauge metricdata.Gauge[$N], m metricdata.Metrics, name string, kv keyVals)
+//@   instances int64; float64
+//@   overflow assumed
+//@   unchecked frame fresh slices are written; Prometheus client calls
+//@   requires len(kv.keys) == len(kv.vals)
+//@   assert@call NewConstMetric#* : $arg1 == prometheus.GaugeValue && $arg2 === float64(dp.Value) && len($arg3) == len(keys)
+//@   assert@call NewDesc#* : len(keys) == len(values) && $arg0 == name && $arg1 == m.Description
